@@ -219,6 +219,10 @@ pub fn render(p: &Program, set: &[Rewrite]) -> Rendered {
             Stmt::Directive(d) => {
                 let start = len;
                 push(&mut text, &mut len, d);
+                // a comment behind a directive (a data list may go on in the next line)
+                if set.contains(&Rewrite::TrailingComment) && !d.contains('"') {
+                    push(&mut text, &mut len, "  # data");
+                }
                 push(&mut text, &mut len, "\n");
                 stmts.push((start, vec![(start, start + d.chars().count().max(1) - 1)], vec!["directive".to_string()]));
                 pseudo.push(false);
